@@ -382,8 +382,41 @@ def r3_mod_tsc(L, repo):
     # modulation
     mods = [n for n in ast.walk(h1) if isinstance(n, ast.Assign) and canon(n.targets[0]) == "%s.mod_type" % MSG]
     pick = "Modulation.pick_by_bl(len(%s.burst))" % SMSG
-    L.require("C10.R3", F, fn, "modulation follows the length of the transmitted burst",
-              [([], pick)], [(lit_fmt(guard_literals(cfg, cfg.node_of(n), subst)), canon(n.value, subst)) for n in mods])
+    # decided by folding the stored expression for bursts of every length a modulation defines (first member wins for
+    # shared lengths) and of lengths none defines
+    folded_mod = False
+    if len(mods) == 1 and not guard_literals(cfg, cfg.node_of(mods[0]), subst):
+        mci_ = repo.need_class("data_msg", "Modulation")
+        members_ = Ev(repo, ci.mod, self_cls=ci).enum_members(mci_)
+        first = {}
+        for m_ in members_:
+            first.setdefault(m_.attrs.get("bl"), m_.name)
+        try:
+            rows_ = []
+            for bl_ in sorted(x for x in first if isinstance(x, int)) + [0, 1, 147, 149, 443, 445]:
+                e_ = Ev(repo, ci.mod, env={"%s.burst" % SMSG: [0] * bl_}, self_cls=ci)
+                # locals the expression reads (bl = len(...)) are evaluated in order
+                for st_ in h1.body:
+                    if st_ is mods[0]:
+                        break
+                    if isinstance(st_, ast.Assign) and len(st_.targets) == 1 and isinstance(st_.targets[0], ast.Name):
+                        try:
+                            e_.run_stmt(st_)
+                        except (Unknown, Raised):
+                            pass
+                v_ = e_.ev(mods[0].value)
+                rows_.append((bl_, getattr(v_, "name", v_), first.get(bl_)))
+            for bl_, got_, want_ in rows_:
+                L.require("C10.R3", F, fn, "a %d-bit burst is forwarded with modulation %s" % (bl_, want_), want_, got_, line=mods[0].lineno)
+            folded_mod = True
+        except (Unknown, Raised):
+            folded_mod = False
+    if folded_mod:
+        L.structural("C10.R3 modulation through Modulation.pick_by_bl(len(burst))", L.require, "C10.R3", F, fn, "modulation follows the length of the transmitted burst",
+                     [([], pick)], [(lit_fmt(guard_literals(cfg, cfg.node_of(n), subst)), canon(n.value, subst)) for n in mods])
+    else:
+        L.require("C10.R3", F, fn, "modulation follows the length of the transmitted burst",
+                  [([], pick)], [(lit_fmt(guard_literals(cfg, cfg.node_of(n), subst)), canon(n.value, subst)) for n in mods])
     # the training sequence found in the transmitted burst
     SS = None
     for n in ast.walk(h1):
